@@ -1,9 +1,11 @@
 package main
 
 import (
+	"context"
 	"encoding/json"
 	"errors"
 	"fmt"
+	"io"
 	"os"
 	"runtime"
 	"sort"
@@ -11,6 +13,7 @@ import (
 	"strings"
 	"sync"
 	"sync/atomic"
+	"syscall"
 	"time"
 
 	"github.com/whoisnian/glb/util/ioutil"
@@ -57,6 +60,31 @@ const (
 )
 
 var errScripted = errors.New("scripted failure")
+
+// The property counts the bytes of a failed write whatever the error IS: the scripted failures cycle through error
+// identities that retry / classification helpers single out (interrupted and would-block system calls, short write,
+// EOF, deadline and context errors, a net.Error-like temporary timeout). The model only knows "failed".
+type tempTimeout struct{}
+
+func (tempTimeout) Error() string   { return "scripted i/o timeout" }
+func (tempTimeout) Timeout() bool   { return true }
+func (tempTimeout) Temporary() bool { return true }
+
+var errKinds = []error{
+	errScripted,
+	fmt.Errorf("write: %w", syscall.EINTR),
+	syscall.EINTR,
+	&os.PathError{Op: "write", Path: "scripted", Err: syscall.EAGAIN},
+	io.ErrShortWrite,
+	io.EOF,
+	os.ErrDeadlineExceeded,
+	context.DeadlineExceeded,
+	context.Canceled,
+	tempTimeout{},
+	io.ErrClosedPipe,
+	syscall.EPIPE,
+	io.ErrUnexpectedEOF,
+}
 
 // under is the scripted wrapped writer.
 type under struct {
@@ -127,7 +155,7 @@ func (u *under) do(l int, viaString bool) (int, error) {
 	u.counts = append(u.counts, m)
 	if hit && op.err {
 		u.errSeen[i] = true
-		return m, errScripted
+		return m, errKinds[(i+len(u.counts))%len(errKinds)]
 	}
 	return m, nil
 }
